@@ -61,7 +61,7 @@ GenCfg cfg_of(const Op & op)
 {
   GenCfg c;
   c.cat = (int)op.arg(1, 2); c.level = (int)op.arg(2); c.mode = (int)op.arg(3);
-  c.emin_keV = op.arg(4, -1); c.emax_keV = op.arg(5, -1); c.mdl = (int)op.arg(6);
+  c.emin_keV = op.arg(4, -1); c.emax_keV = op.arg(5, -1); c.mdl = (int)(op.arg(6) % 100); c.debug = op.arg(6) >= 100;
   c.nuc = op.str(0);
   return c;
 }
@@ -229,6 +229,7 @@ struct RefServer
           std::istringstream i(m);
           GenCfg cfg; Op shoot; shoot.k = "shoot"; size_t na = 0;
           i >> cfg.cat >> cfg.level >> cfg.mode >> cfg.emin_keV >> cfg.emax_keV >> cfg.mdl >> na;
+          cfg.debug = cfg.mdl >= 100; cfg.mdl %= 100;
           for (size_t k = 0; k < na && k < 64; k++) { i64 v; i >> v; shoot.a.push_back(v); }
           cfg.nuc = get_s(i);
           Canon c = canonical(cfg, shoot);
@@ -259,7 +260,7 @@ struct RefServer
     auto it = cache.find(key);
     if (it != cache.end()) return it->second.budget && it->second.err == "reference process died" ? nullptr : &it->second;
     std::ostringstream o;
-    o << cfg.cat << ' ' << cfg.level << ' ' << cfg.mode << ' ' << cfg.emin_keV << ' ' << cfg.emax_keV << ' ' << cfg.mdl << ' ' << shoot.a.size() << ' ';
+    o << cfg.cat << ' ' << cfg.level << ' ' << cfg.mode << ' ' << cfg.emin_keV << ' ' << cfg.emax_keV << ' ' << (cfg.mdl + (cfg.debug ? 100 : 0)) << ' ' << shoot.a.size() << ' ';
     for (i64 v : shoot.a) o << v << ' ';
     put_s(o, cfg.nuc);
     std::string m;
@@ -573,6 +574,7 @@ GenCfg pick_cfg(Rng & r, bool cheap_only)
     if (mode_supports_window(e->mode) && r.chance(0.3)) pick_window(r, *e, c);
   }
   if (r.chance(0.18)) c.mdl = (int)r.range(1, mdl_presets());
+  if (r.chance(0.02)) c.debug = true; // traces on: the code between the traces runs too
   return c;
 }
 
@@ -607,7 +609,7 @@ GenCfg variant_of(Rng & r, const GenCfg & c0)
 
 Op op_cfg(int g, const GenCfg & c)
 {
-  Op o; o.k = "cfg"; o.a = {g, c.cat, c.level, c.mode, c.emin_keV, c.emax_keV, c.mdl}; o.s = {c.nuc};
+  Op o; o.k = "cfg"; o.a = {g, c.cat, c.level, c.mode, c.emin_keV, c.emax_keV, c.mdl + (c.debug ? 100 : 0)}; o.s = {c.nuc};
   return o;
 }
 
